@@ -2176,6 +2176,10 @@ class C09(TraceCheck):
         res["digest"] = E.sha((res["digest"], sorted(n_vals.items()), n_out))
         res["faults"] = {"guard0": int(bool(tr.probes.get("step_under_false_block_guard"))),
                          "guard1": int(bool(tr.probes.get("step_in_block_region")))}
+        res["sigs"] = [E.sha((s["s"], s.get("elifs") and len(s["elifs"]), s.get("else") is not None,
+                              s.get("breakif") is not None, s.get("max"), s.get("checkstopmax"),
+                              bool(tr.probes.get("step_under_false_block_guard"))))
+                       for s in _all_stmts(plan["body"]) if s["s"].startswith("block_")]
         return res
 
 
@@ -2410,6 +2414,10 @@ class C15(ProverCheck):
         res["faults"] = faults
         res["probes"] = probes
         res["digest"] = E.sha((res["digest"], snaps[-1] if snaps else None, n_caught))
+        res["sigs"] = [E.sha((s["s"], len(s.get("ix") or s.get("e", {}).get("ix") or []),
+                              [("ref" in i) for i in (s.get("ix") or s.get("e", {}).get("ix") or [])],
+                              bool(s.get("chained") or s.get("e", {}).get("chained")), len(plan["body"][0].get("rows") or []),
+                              len(plan["body"][0].get("els") or []), bool(tr.caught))) for s in plan["body"][1:]]
         return res
 
     def shrink_candidates(self, case):
@@ -2638,6 +2646,16 @@ class C17(TraceCheck):
         res["nontrivial"] = None
         res["nontrivial_list"] = nts
         res["faults"] = {"tamper_public_output": probes.get("outputs_tampered", 0)}
+
+        def shape(v):
+            if isinstance(v, dict) and v.get("struct"):
+                items = v["items"] if v["struct"] != "alias_list" else [v["item"]]
+                return [v["struct"]] + [shape(x[1] if v["struct"] == "dict" else x) for x in items]
+            if isinstance(v, dict) and "argvar" in v:
+                return "shared"
+            return v.get("lt", "e") if isinstance(v, dict) else "?"
+        res["sigs"] = [E.sha((shape({"struct": "list", "items": st["args"]}), shape(st["ret"])))
+                       for st in plan["body"] if st["s"] == "snark_call"]
         return res
 
     def shrink_candidates(self, case):
